@@ -26,6 +26,12 @@ add('C18',
     'Lean 4 proof (sorted-permutation uniqueness, decision logic) + differential correspondence + reference sort/take oracle on SQLite',
     'DESIGN.md section 5 C18')
 
+add('C14',
+    'Lean 4 state-machine model of Concertina (UnderstandIterations requirement propagation, SortActions with its break/assigning logic, RunOneAction/UpdateStateForIterativeAction with re-queueing and an external monotone stop oracle). Proved: the run terminates for every configuration, queue and stop-oracle behaviour (a measure that strictly decreases with each executed action), each step executes exactly the queue head, a completed run is a fixed point. Order/count/round statements (sort is a dependency-respecting permutation, exact repetition counts, contiguous rounds) are not yet theorems: they are decided by the trace checker on the real code and by the model/implementation correspondence, which is not counted as proof. Tie: the real Concertina (silent display, recording engine, real stop-signal files) against the Lean driver on generated DAGs x iteration groups x stop schedules and on the configs of compiled plans (@Ground chains, @Recursive depth 21-30) executed on SQLite; oracle: dependencies, counts, rounds, termination, and equal final_result for every subset of requested predicates.',
+    'Trusted: Lean kernel + standard axioms; correspondence harness; stop signal as monotone oracle; display code not modelled. One defect repaired (fix: iteration waits for requirements of all its actions).',
+    'Lean 4 proof (termination measure over the run loop) + differential correspondence of the scheduler model + trace-checker oracle on real runs',
+    'DESIGN.md section 5 C14')
+
 ALL = ['C%02d' % i for i in range(1, 21)]
 
 def main():
